@@ -1171,6 +1171,28 @@ def r202(ctx, repo, wtable, wn):
     ctab = {}
     for u, st, env in cstores:
         v = st.value
+        if isinstance(v, ast.IfExp):
+            # every branch must be the reduction; a constant stands in for
+            # "nothing valid" – the NaN-ignoring reducers answer NaN there
+            branches = [v.body, v.orelse]
+            consts = [b for b in branches if isinstance(b, ast.Constant)
+                      or (isinstance(b, ast.UnaryOp)
+                          and isinstance(b.operand, ast.Constant))]
+            calls = [b for b in branches if isinstance(b, ast.Call)]
+            if len(calls) + len(consts) != 2 or not calls:
+                raise AnalysisError("rtdc_copy: summary completion form "
+                                    "lost")
+            sub = [c for c in consts if not (
+                isinstance(c, ast.Attribute))]
+            ctx.ob("R20.2", not sub,
+                   f"copier completes {u} by the reduction on every path"
+                   if not sub else
+                   f"copier completes {u} with the constant "
+                   f"`{short(sub[0], 10)}` when `{short(v.test, 30)}` fails: "
+                   f"the summary of a feature without valid values is "
+                   f"{NAN_REDUCER[u]}(..) = NaN, not a substitute",
+                   node=st, key=f"{CP}::rtdc_copy::no substitute for {u}")
+            v = calls[0]
         f = v.func if isinstance(v, ast.Call) else None
         src = None
         if isinstance(f, ast.Call) and call_name(f) == "getattr" \
@@ -1454,6 +1476,21 @@ def check_fetch(ctx, rel, cls, cname, repo=None):
                if ok else f"{cname}: the fallback is not guarded by "
                f"`{C} is None`", node=comp,
                label="fallback only when missing" + sfx, nontrivial=False)
+    rebound = [n for n in walk(f) if isinstance(
+        n, (ast.Assign, ast.AugAssign, ast.AnnAssign, ast.NamedExpr))
+        and any(isinstance(x, ast.Name) and x.id in (uname, ufunc)
+                and isinstance(x.ctx, ast.Store)
+                for t_ in (n.targets if isinstance(n, ast.Assign)
+                           else [n.target]) for x in ast.walk(t_))]
+    ctx.ob("R20.3", not rebound,
+           f"{cname}: name and reducer handed in by min/max/mean are used "
+           f"unchanged on every path" if not rebound else
+           f"{cname}: `{short(rebound[0], 40)}` replaces the "
+           f"{'reducer' if ufunc in names_in(rebound[0].targets[0] if isinstance(rebound[0], ast.Assign) else rebound[0].target) else 'name'}"
+           f" handed in by min/max/mean on some path: the summary is then "
+           f"not the NaN-ignoring reduction (e.g. NaN for data with NaN)",
+           node=rebound[0] if rebound else f,
+           label="given reducer used on every path")
     xs = {c.targets[0].id for c in comps}
     if len(xs) != 1:
         raise AnalysisError(f"{cname}._fetch_ufunc_attr: several result "
@@ -1806,7 +1843,26 @@ def r203(ctx, repo, cstores):
         v = st.value
         tgt = txt(st.targets[0].value.value)
         srcx = getattr(st, "c20_source", None)
-        ok = srcx is not None and txt(srcx) in (tgt, f"{tgt}[:]")
+        res_ = name_resolver(repo, CP, _func_of(st))
+
+        def whole_copy(e, depth=0):
+            """dst / dst[:] / a local bound to it / its NaN-free selection
+            X[~np.isnan(X)] (the NaN-ignoring reducers see the same)"""
+            if e is None or depth > 4:
+                return False
+            if txt(e) in (tgt, f"{tgt}[:]"):
+                return True
+            if isinstance(e, ast.Name):
+                return whole_copy(res_(e.id), depth + 1)
+            if isinstance(e, ast.Subscript) and isinstance(
+                    e.slice, ast.UnaryOp) and isinstance(
+                    e.slice.op, ast.Invert) and isinstance(
+                    e.slice.operand, ast.Call) and (call_name(
+                        e.slice.operand) or "").endswith("isnan") \
+                    and txt(e.slice.operand.args[0]) == txt(e.value):
+                return whole_copy(e.value, depth + 1)
+            return False
+        ok = whole_copy(srcx)
         ctx.ob("R20.3", ok, f"copier computes a missing {u} from the copied "
                f"dataset" if ok else f"copier computes {u} from "
                f"`{short(srcx, 30)}`, not from the copied dataset",
@@ -2575,6 +2631,18 @@ MUTANTS = [
      _summary_table_min_is_max, "R20.2"),
     ("module-level fetch helper caches under a fixed name", EV,
      _fetch_in_module_helper_wrong_key, "R20.3"),
+    ("ChildScalar switches to the plain reducer for cleaned parents", HE,
+     ("            val = ufunc(self.__array__())\n",
+      '            if self.child.hparent.config["filtering"]['
+      '"remove invalid events"]:\n'
+      "                ufunc = getattr(np, uname)\n"
+      "            val = ufunc(self.__array__())\n"), "R20.3"),
+    ("copier writes 0 for features without valid values", CP,
+     ("                            dst.attrs[attr] = ufunc(dst)\n",
+      "                            data = dst[:]\n"
+      "                            valid = data[~np.isnan(data)]\n"
+      "                            dst.attrs[attr] = ufunc(valid) "
+      "if valid.size else 0\n"), "R20.2"),
     ("H5ScalarEvent caches under a fixed name", EV,
      ("self._ufunc_attrs[uname] = val", 'self._ufunc_attrs["min"] = val'),
      "R20.3"),
